@@ -806,3 +806,695 @@ def deserialize {α} (binaryCodec : Bool) (dec : Json → Option α) : Bytes →
   | .other _ _ => .error .notJson
 
 end Varpulis.Ckpt
+
+/-!
+# M-CKPT, part 2: component states, `checkpoint` and `restore` field by field (C19)
+
+Each component is a configuration-free *state* (what `restore` has to bring back), a step function
+taking the configuration of the freshly loaded program as an argument, `ckpt` (the Rust
+`checkpoint()`), and `restore` (the Rust `restore()` applied to the component of a freshly loaded
+engine).  Hash maps are association lists in a canonical order; wall-clock fields (`Instant`s:
+`Run::started_at`, `Run::deadline`, `StackEntry::timestamp`, `SourceWatermark::last_event_time`)
+are not part of the state: they are either never read (`StackEntry::timestamp`,
+`last_event_time`) or belong to processing-time behaviour, which the property excludes.
+-/
+namespace Varpulis.Ckpt
+
+/-- `persistence::subms_ns` -/
+def subOf (t : Int) : Nat := (t % 1000000).toNat
+
+/-- `persistence::timestamp_from_parts` -/
+def joinTs (ms : Int) (sub : Nat) : Int := ofMs ms + sub
+
+def emptyWC : WindowCkpt :=
+  { events := [], windowStartMs := none, lastEmitMs := none, partitions := [], eventsSinceEmit := none,
+    windowStartSub := 0, lastEmitSub := 0 }
+
+def emptyPWC : PartWinCkpt := { events := [], windowStartMs := none, eventsSinceEmit := none, windowStartSub := 0 }
+
+/-- what a window hands to the rest of the pipeline on one operation -/
+abbrev Emit := Option (List Event)
+
+/-! ## window.rs -/
+
+/-- `TumblingWindow` (`duration` is configuration) -/
+structure TumblingSt where
+  buf : List Event
+  start : Option Int
+  deriving Repr, Inhabited, BEq
+
+/-- `TumblingWindow::add_shared` -/
+def TumblingSt.add (dur : Int) (w : TumblingSt) (e : Event) : TumblingSt × Emit :=
+  let start := w.start.getD e.ts
+  if e.ts ≥ start + dur then ({ buf := [e], start := some e.ts }, some w.buf)
+  else ({ buf := w.buf ++ [e], start := some start }, none)
+
+/-- `TumblingWindow::advance_watermark` -/
+def TumblingSt.wm (dur : Int) (w : TumblingSt) (t : Int) : TumblingSt × Emit :=
+  match w.start with
+  | some s => if t ≥ s + dur ∧ w.buf ≠ [] then ({ buf := [], start := some t }, some w.buf) else (w, none)
+  | none => (w, none)
+
+/-- `TumblingWindow::checkpoint` -/
+def TumblingSt.ckpt (w : TumblingSt) : WindowCkpt :=
+  { emptyWC with events := w.buf.map serOfEvent, windowStartMs := w.start.map msOf,
+                 windowStartSub := (w.start.map subOf).getD 0 }
+
+/-- `TumblingWindow::restore` -/
+def TumblingSt.restore (cp : WindowCkpt) : TumblingSt :=
+  { buf := cp.events.map eventOfSer, start := cp.windowStartMs.map fun ms => joinTs ms cp.windowStartSub }
+
+/-- `TumblingWindow::restore` before the repair of the millisecond truncation -/
+def TumblingSt.restoreOld (cp : WindowCkpt) : TumblingSt :=
+  { buf := cp.events.map eventOfSerOld, start := cp.windowStartMs.map ofMs }
+
+/-- the prefix `events.iter().position(|e| e.timestamp >= cutoff)` drains -/
+def dropExpired (cutoff : Int) (l : List Event) : List Event := l.dropWhile fun e => e.ts < cutoff
+
+/-- `SlidingWindow` (`window_size`, `slide_interval` are configuration) -/
+structure SlidingSt where
+  buf : List Event
+  lastEmit : Option Int
+  deriving Repr, Inhabited, BEq
+
+/-- `SlidingWindow::add_shared` -/
+def SlidingSt.add (size slide : Int) (w : SlidingSt) (e : Event) : SlidingSt × Emit :=
+  let buf := dropExpired (e.ts - size) (w.buf ++ [e])
+  let emit := match w.lastEmit with
+    | none => true
+    | some l => decide (e.ts ≥ l + slide)
+  if emit then ({ buf := buf, lastEmit := some e.ts }, some buf) else ({ buf := buf, lastEmit := w.lastEmit }, none)
+
+/-- `SlidingWindow::advance_watermark` -/
+def SlidingSt.wm (size slide : Int) (w : SlidingSt) (t : Int) : SlidingSt × Emit :=
+  let buf := dropExpired (t - size) w.buf
+  let emit := match w.lastEmit with
+    | none => !buf.isEmpty
+    | some l => decide (t ≥ l + slide) && !buf.isEmpty
+  if emit then ({ buf := buf, lastEmit := some t }, some buf) else ({ buf := buf, lastEmit := w.lastEmit }, none)
+
+def SlidingSt.ckpt (w : SlidingSt) : WindowCkpt :=
+  { emptyWC with events := w.buf.map serOfEvent, lastEmitMs := w.lastEmit.map msOf,
+                 lastEmitSub := (w.lastEmit.map subOf).getD 0 }
+
+def SlidingSt.restore (cp : WindowCkpt) : SlidingSt :=
+  { buf := cp.events.map eventOfSer, lastEmit := cp.lastEmitMs.map fun ms => joinTs ms cp.lastEmitSub }
+
+/-- `CountWindow` (`count` is configuration) -/
+structure CountSt where
+  buf : List Event
+  deriving Repr, Inhabited, BEq
+
+/-- `CountWindow::add_shared` -/
+def CountSt.add (n : Nat) (w : CountSt) (e : Event) : CountSt × Emit :=
+  let buf := w.buf ++ [e]
+  if buf.length ≥ n then ({ buf := [] }, some buf) else ({ buf := buf }, none)
+
+def CountSt.ckpt (w : CountSt) : WindowCkpt := { emptyWC with events := w.buf.map serOfEvent }
+
+def CountSt.restore (cp : WindowCkpt) : CountSt := { buf := cp.events.map eventOfSer }
+
+/-- `SlidingCountWindow` (`window_size`, `slide_size` are configuration) -/
+structure SlidingCountSt where
+  buf : List Event
+  since : Nat
+  deriving Repr, Inhabited, BEq
+
+/-- `SlidingCountWindow::add_shared` -/
+def SlidingCountSt.add (size slide : Nat) (w : SlidingCountSt) (e : Event) : SlidingCountSt × Emit :=
+  let buf0 := w.buf ++ [e]
+  let buf := buf0.drop (buf0.length - size)
+  let since := w.since + 1
+  if buf.length ≥ size ∧ since ≥ slide then ({ buf := buf, since := 0 }, some buf)
+  else ({ buf := buf, since := since }, none)
+
+/-- `SlidingCountWindow::checkpoint` (since the repair: the slide counter is stored) -/
+def SlidingCountSt.ckpt (w : SlidingCountSt) : WindowCkpt :=
+  { emptyWC with events := w.buf.map serOfEvent, eventsSinceEmit := some w.since }
+
+/-- `SlidingCountWindow::restore`; a checkpoint without the field (older version) gives 0 -/
+def SlidingCountSt.restore (cp : WindowCkpt) : SlidingCountSt :=
+  { buf := cp.events.map eventOfSer, since := cp.eventsSinceEmit.getD 0 }
+
+/-- `SlidingCountWindow::restore` before the repair: `events_since_emit = 0` -/
+def SlidingCountSt.restoreOld (cp : WindowCkpt) : SlidingCountSt :=
+  { buf := cp.events.map eventOfSer, since := 0 }
+
+/-- `SessionWindow` (`gap` is configuration) -/
+structure SessionSt where
+  buf : List Event
+  last : Option Int
+  deriving Repr, Inhabited, BEq
+
+/-- `SessionWindow::add_shared` -/
+def SessionSt.add (gap : Int) (w : SessionSt) (e : Event) : SessionSt × Emit :=
+  match w.last with
+  | some l => if e.ts - l > gap then ({ buf := [e], last := some e.ts }, some w.buf)
+              else ({ buf := w.buf ++ [e], last := some e.ts }, none)
+  | none => ({ buf := w.buf ++ [e], last := some e.ts }, none)
+
+/-- `SessionWindow::advance_watermark` -/
+def SessionSt.wm (gap : Int) (w : SessionSt) (t : Int) : SessionSt × Emit :=
+  match w.last with
+  | some l => if t ≥ l + gap ∧ w.buf ≠ [] then ({ buf := [], last := none }, some w.buf) else (w, none)
+  | none => (w, none)
+
+/-- `SessionWindow::checkpoint`: `last_event_time` travels in `window_start_ms` -/
+def SessionSt.ckpt (w : SessionSt) : WindowCkpt :=
+  { emptyWC with events := w.buf.map serOfEvent, windowStartMs := w.last.map msOf,
+                 windowStartSub := (w.last.map subOf).getD 0 }
+
+def SessionSt.restore (cp : WindowCkpt) : SessionSt :=
+  { buf := cp.events.map eventOfSer, last := cp.windowStartMs.map fun ms => joinTs ms cp.windowStartSub }
+
+/-! ### partitioned windows: one sub-window per key (`FxHashMap<String, W>` as an association list) -/
+
+/-- replace the entry of `k`, or append it -/
+def upsert {σ} (k : String) (v : σ) : List (String × σ) → List (String × σ)
+  | [] => [(k, v)]
+  | (k', v') :: r => if k' = k then (k, v) :: r else (k', v') :: upsert k v r
+
+/-- `Partitioned*Window::add_shared` / `Partitioned*State::add`: `pk` is
+`event.get(key).map(to_partition_key).unwrap_or("default")` -/
+def partAdd {σ} (pk : Event → String) (fresh : σ) (add : σ → Event → σ × Emit)
+    (wins : List (String × σ)) (e : Event) : List (String × σ) × Emit :=
+  let k := pk e
+  let r := add ((wins.lookup k).getD fresh) e
+  (upsert k r.1 wins, r.2)
+
+/-- `PartitionedTumblingWindow::advance_watermark` / `PartitionedSlidingWindow::advance_watermark`:
+every partition is advanced, the emissions are concatenated, no partition is removed -/
+def partWmKeep {σ} (wm : σ → Int → σ × Emit) (wins : List (String × σ)) (t : Int) : List (String × σ) × List Event :=
+  (wins.map fun kv => (kv.1, (wm kv.2 t).1), (wins.map fun kv => ((wm kv.2 t).2).getD []).flatten)
+
+/-- `PartitionedSessionWindow::advance_watermark`: closed sessions are removed from the map -/
+def partWmDrop {σ} (wm : σ → Int → σ × Emit) (wins : List (String × σ)) (t : Int) : List (String × σ) × List Event :=
+  ((wins.filter fun kv => ((wm kv.2 t).2).isNone).map fun kv => (kv.1, (wm kv.2 t).1),
+   (wins.map fun kv => ((wm kv.2 t).2).getD []).flatten)
+
+/-- the part of a sub-window's `WindowCheckpoint` that `PartitionedWindowCheckpoint` keeps -/
+def pwcOf (cp : WindowCkpt) : PartWinCkpt :=
+  { events := cp.events, windowStartMs := cp.windowStartMs, eventsSinceEmit := cp.eventsSinceEmit,
+    windowStartSub := cp.windowStartSub }
+
+/-- the `WindowCheckpoint` handed to the sub-window's `restore` -/
+def wcOf (p : PartWinCkpt) : WindowCkpt :=
+  { emptyWC with events := p.events, windowStartMs := p.windowStartMs, eventsSinceEmit := p.eventsSinceEmit,
+                 windowStartSub := p.windowStartSub }
+
+/-- `Partitioned{Session,Tumbling}Window::checkpoint`, `create_checkpoint` for
+`PartitionedWindow` / `PartitionedSlidingCountWindow` -/
+def partCkpt {σ} (ck : σ → WindowCkpt) (wins : List (String × σ)) : WindowCkpt :=
+  { emptyWC with partitions := wins.map fun kv => (kv.1, pwcOf (ck kv.2)) }
+
+/-- `Partitioned*Window::restore` (`windows.clear()`, one insert per checkpointed partition) and
+`restore_checkpoint` for `PartitionedWindow` / `PartitionedSlidingCountWindow` (fresh engine: the
+map is empty, `entry().or_insert_with(new)` then `restore`) -/
+def partRestore {σ} (rs : WindowCkpt → σ) (cp : WindowCkpt) : List (String × σ) :=
+  cp.partitions.map fun kv => (kv.1, rs (wcOf kv.2))
+
+/-- `PartitionedSlidingWindow::checkpoint` stores `last_emit` in the `window_start_ms` slot … -/
+def slidingPwc (w : SlidingSt) : PartWinCkpt :=
+  { emptyPWC with events := w.buf.map serOfEvent, windowStartMs := w.lastEmit.map msOf,
+                  windowStartSub := (w.lastEmit.map subOf).getD 0 }
+
+/-- … and `PartitionedSlidingWindow::restore` reads it back from there -/
+def slidingOfPwc (p : PartWinCkpt) : SlidingSt :=
+  { buf := p.events.map eventOfSer, lastEmit := p.windowStartMs.map fun ms => joinTs ms p.windowStartSub }
+
+/-- the window operator of one stream (`WindowType` and the two `Partitioned*State` runtime ops) -/
+inductive WinSt where
+  | tumbling (w : TumblingSt)
+  | sliding (w : SlidingSt)
+  | count (w : CountSt)
+  | slidingCount (w : SlidingCountSt)
+  | session (w : SessionSt)
+  | pTumbling (ws : List (String × TumblingSt))
+  | pSliding (ws : List (String × SlidingSt))
+  | pSession (ws : List (String × SessionSt))
+  | pCount (ws : List (String × CountSt))
+  | pSlidingCount (ws : List (String × SlidingCountSt))
+  deriving Repr, Inhabited, BEq
+
+/-- the state of the same operator in a freshly loaded engine -/
+def WinSt.fresh : WinSt → WinSt
+  | .tumbling _ => .tumbling { buf := [], start := none }
+  | .sliding _ => .sliding { buf := [], lastEmit := none }
+  | .count _ => .count { buf := [] }
+  | .slidingCount _ => .slidingCount { buf := [], since := 0 }
+  | .session _ => .session { buf := [], last := none }
+  | .pTumbling _ => .pTumbling []
+  | .pSliding _ => .pSliding []
+  | .pSession _ => .pSession []
+  | .pCount _ => .pCount []
+  | .pSlidingCount _ => .pSlidingCount []
+
+/-- `Engine::create_checkpoint`, the `RuntimeOp::Window | PartitionedWindow | PartitionedSlidingCountWindow` arms -/
+def WinSt.ckpt : WinSt → WindowCkpt
+  | .tumbling w => w.ckpt
+  | .sliding w => w.ckpt
+  | .count w => w.ckpt
+  | .slidingCount w => w.ckpt
+  | .session w => w.ckpt
+  | .pTumbling ws => partCkpt TumblingSt.ckpt ws
+  | .pSliding ws => { emptyWC with partitions := ws.map fun kv => (kv.1, slidingPwc kv.2) }
+  | .pSession ws => partCkpt SessionSt.ckpt ws
+  | .pCount ws => partCkpt CountSt.ckpt ws
+  | .pSlidingCount ws => partCkpt SlidingCountSt.ckpt ws
+
+/-- `Engine::restore_checkpoint`, window arms: the operator of the freshly loaded engine decides
+which `restore` runs -/
+def WinSt.restore (fresh : WinSt) (cp : WindowCkpt) : WinSt :=
+  match fresh with
+  | .tumbling _ => .tumbling (TumblingSt.restore cp)
+  | .sliding _ => .sliding (SlidingSt.restore cp)
+  | .count _ => .count (CountSt.restore cp)
+  | .slidingCount _ => .slidingCount (SlidingCountSt.restore cp)
+  | .session _ => .session (SessionSt.restore cp)
+  | .pTumbling _ => .pTumbling (partRestore TumblingSt.restore cp)
+  | .pSliding _ => .pSliding (cp.partitions.map fun kv => (kv.1, slidingOfPwc kv.2))
+  | .pSession _ => .pSession (partRestore SessionSt.restore cp)
+  | .pCount _ => .pCount (partRestore CountSt.restore cp)
+  | .pSlidingCount _ => .pSlidingCount (partRestore SlidingCountSt.restore cp)
+
+/-- the configuration of a window operator, from the program text -/
+structure WinCfg where
+  dur : Int := 0      -- tumbling duration / sliding size / session gap (ns)
+  slide : Int := 0    -- sliding interval (ns)
+  n : Nat := 0        -- count / sliding count size
+  m : Nat := 0        -- sliding count slide
+  deriving Repr, Inhabited
+
+inductive WinOp where
+  | add (e : Event)
+  | wm (t : Int)
+  deriving Repr, Inhabited
+
+/-- one operation on the window operator of a stream: `execute_pipeline`'s window arm for `add`,
+`apply_watermark_to_windows` for `wm` (count based windows ignore watermarks) -/
+def WinSt.step (c : WinCfg) (pk : Event → String) : WinSt → WinOp → WinSt × List Event
+  | .tumbling w, .add e => let r := w.add c.dur e; (.tumbling r.1, r.2.getD [])
+  | .tumbling w, .wm t => let r := w.wm c.dur t; (.tumbling r.1, r.2.getD [])
+  | .sliding w, .add e => let r := w.add c.dur c.slide e; (.sliding r.1, r.2.getD [])
+  | .sliding w, .wm t => let r := w.wm c.dur c.slide t; (.sliding r.1, r.2.getD [])
+  | .count w, .add e => let r := w.add c.n e; (.count r.1, r.2.getD [])
+  | .count w, .wm _ => (.count w, [])
+  | .slidingCount w, .add e => let r := w.add c.n c.m e; (.slidingCount r.1, r.2.getD [])
+  | .slidingCount w, .wm _ => (.slidingCount w, [])
+  | .session w, .add e => let r := w.add c.dur e; (.session r.1, r.2.getD [])
+  | .session w, .wm t => let r := w.wm c.dur t; (.session r.1, r.2.getD [])
+  | .pTumbling ws, .add e => let r := partAdd pk { buf := [], start := none } (TumblingSt.add c.dur) ws e; (.pTumbling r.1, r.2.getD [])
+  | .pTumbling ws, .wm t => let r := partWmKeep (TumblingSt.wm c.dur) ws t; (.pTumbling r.1, r.2)
+  | .pSliding ws, .add e => let r := partAdd pk { buf := [], lastEmit := none } (SlidingSt.add c.dur c.slide) ws e; (.pSliding r.1, r.2.getD [])
+  | .pSliding ws, .wm t => let r := partWmKeep (SlidingSt.wm c.dur c.slide) ws t; (.pSliding r.1, r.2)
+  | .pSession ws, .add e => let r := partAdd pk { buf := [], last := none } (SessionSt.add c.dur) ws e; (.pSession r.1, r.2.getD [])
+  | .pSession ws, .wm t => let r := partWmDrop (SessionSt.wm c.dur) ws t; (.pSession r.1, r.2)
+  | .pCount ws, .add e => let r := partAdd pk { buf := [] } (CountSt.add c.n) ws e; (.pCount r.1, r.2.getD [])
+  | .pCount ws, .wm _ => (.pCount ws, [])
+  | .pSlidingCount ws, .add e => let r := partAdd pk { buf := [], since := 0 } (SlidingCountSt.add c.n c.m) ws e; (.pSlidingCount r.1, r.2.getD [])
+  | .pSlidingCount ws, .wm _ => (.pSlidingCount ws, [])
+
+/-- outputs of a whole continuation -/
+def runOps {σ ι ο} (step : σ → ι → σ × ο) : σ → List ι → List ο
+  | _, [] => []
+  | s, i :: is => (step s i).2 :: runOps step (step s i).1 is
+
+end Varpulis.Ckpt
+
+namespace Varpulis.Ckpt
+
+/-! ## sase.rs: runs -/
+
+/-- `KleeneCapture`.  Predicates are not data in the model: `deferred` is the id of the NFA
+state whose `postponed_predicate` was copied into the capture.  `needs_zdd` is not a separate
+field: the code sets it together with `deferred_predicate` and never changes either afterwards,
+so `needs_zdd = deferred.isSome`; the ZDD handle is a function of the number of events. -/
+structure KC where
+  events : List Event
+  aliases : List (Option String)
+  deferred : Option Nat
+  deriving Repr, Inhabited, BEq
+
+/-- `NegationConstraint` (`deadline: Instant` is wall-clock and not part of the state) -/
+structure Neg where
+  forbidden : String
+  pred : Option Nat
+  nextState : Nat
+  deadline : Option Int
+  deriving Repr, Inhabited, BEq
+
+/-- `Run` -/
+structure Run where
+  currentState : Nat
+  stack : List (Event × Option String)
+  captured : List (String × Event)
+  startedAt : Option Int
+  deadline : Option Int
+  partitionKey : Option Val
+  invalidated : Bool
+  pendingNegs : List Neg
+  /-- `AndState`: (branch index, event), listed by branch index -/
+  andState : Option (List (Nat × Event))
+  kleene : Option KC
+  deriving Repr, Inhabited, BEq
+
+/-- `Run::checkpoint` -/
+def Run.ckpt (r : Run) : RunCkpt :=
+  { currentState := r.currentState,
+    stack := r.stack.map fun p => { event := serOfEvent p.1, alias := p.2 },
+    captured := r.captured.map fun p => (p.1, serOfEvent p.2),
+    startedAtMs := r.startedAt.map msOf, startedAtSub := (r.startedAt.map subOf).getD 0,
+    deadlineMs := r.deadline.map msOf, deadlineSub := (r.deadline.map subOf).getD 0,
+    partitionKey := r.partitionKey.map v2s, invalidated := r.invalidated,
+    pendingNegationCount := r.pendingNegs.length,
+    kleeneEvents := r.kleene.map fun kc => kc.events.map serOfEvent,
+    andBranches := r.andState.map fun l => l.map fun p => (p.1, serOfEvent p.2) }
+
+/-- `Run::from_checkpoint`: pending negations are dropped (only their number was stored), the
+Kleene capture comes back with its events only: no aliases, no deferred predicate -/
+def Run.fromCkpt (c : RunCkpt) : Run :=
+  { currentState := c.currentState,
+    stack := c.stack.map fun s => (eventOfSer s.event, s.alias),
+    captured := c.captured.map fun p => (p.1, eventOfSer p.2),
+    startedAt := c.startedAtMs.map fun ms => joinTs ms c.startedAtSub,
+    deadline := c.deadlineMs.map fun ms => joinTs ms c.deadlineSub,
+    partitionKey := c.partitionKey.map s2v, invalidated := c.invalidated,
+    pendingNegs := [],
+    andState := c.andBranches.map fun l => l.map fun p => (p.1, eventOfSer p.2),
+    kleene := c.kleeneEvents.map fun evs =>
+      { events := evs.map eventOfSer, aliases := evs.map fun _ => none, deferred := none } }
+
+/-- `Run::from_checkpoint` before the repair of the AND progress -/
+def Run.fromCkptOld (c : RunCkpt) : Run := { Run.fromCkpt c with andState := none }
+
+/-- what the rest of `sase.rs` can see of a Kleene capture: the aliases are read only by
+`iter_combinations` / `get_combination_captured`, which run only under a deferred predicate
+(`complete_run` → `enumerate_with_filter`) -/
+def KC.view (kc : KC) : KC := if kc.deferred.isSome then kc else { kc with aliases := [] }
+
+def Run.view (r : Run) : Run := { r with kleene := r.kleene.map KC.view }
+
+/-- the losses of `Run::from_checkpoint` that are *not* repaired: a pending negation, a deferred
+Kleene predicate -/
+def Run.Restorable (r : Run) : Bool :=
+  r.pendingNegs.isEmpty && (match r.kleene with | some kc => kc.deferred.isNone | none => true)
+
+/-- `complete_run`: with a deferred predicate the combinations are enumerated
+(`CompleteMulti`), otherwise there is exactly one match -/
+inductive Completion where
+  | single
+  | enumerate (candidates : Nat)
+  deriving Repr, DecidableEq
+
+def Run.complete (r : Run) : Completion :=
+  match r.kleene with
+  | some kc => if kc.deferred.isSome then .enumerate (2 ^ kc.events.length - 1) else .single
+  | none => .single
+
+/-- `advance_run_shared`, first loop: does the event violate a pending negation?
+(`predOk` evaluates the constraint's predicate; `none` = no predicate = always) -/
+def Run.violates (predOk : Nat → Event → Bool) (r : Run) (e : Event) : Bool :=
+  r.pendingNegs.any fun n => n.forbidden == e.etype && (match n.pred with | some p => predOk p e | none => true)
+
+/-- `advance_and_state`: which branch does the event complete (first not yet completed branch of
+its type)? `branches` = `AndConfig::branches` as event types -/
+def Run.andNext (branches : List String) (r : Run) (e : Event) : Option Nat :=
+  let done := (r.andState.getD []).map (·.1)
+  (List.range branches.length).find? fun i => !done.contains i && branches[i]? == some e.etype
+
+/-- `SaseEngine` as far as `checkpoint`/`restore` touch it -/
+structure SaseSt where
+  runs : List Run
+  partitioned : List (String × List Run)
+  watermark : Option Int
+  maxTimestamp : Option Int
+  created : Nat
+  completed : Nat
+  dropped : Nat
+  evicted : Nat
+  deriving Repr, Inhabited, BEq
+
+/-- `SaseEngine::checkpoint` -/
+def SaseSt.ckpt (s : SaseSt) : SaseCkpt :=
+  { activeRuns := s.runs.map Run.ckpt,
+    partitionedRuns := s.partitioned.map fun kv => (kv.1, kv.2.map Run.ckpt),
+    watermarkMs := s.watermark.map msOf, watermarkSub := (s.watermark.map subOf).getD 0,
+    maxTimestampMs := s.maxTimestamp.map msOf, maxTimestampSub := (s.maxTimestamp.map subOf).getD 0,
+    created := s.created, completed := s.completed, dropped := s.dropped, evicted := s.evicted }
+
+/-- `SaseEngine::restore` -/
+def SaseSt.restore (c : SaseCkpt) : SaseSt :=
+  { runs := c.activeRuns.map Run.fromCkpt,
+    partitioned := c.partitionedRuns.map fun kv => (kv.1, kv.2.map Run.fromCkpt),
+    watermark := c.watermarkMs.map fun ms => joinTs ms c.watermarkSub,
+    maxTimestamp := c.maxTimestampMs.map fun ms => joinTs ms c.maxTimestampSub,
+    created := c.created, completed := c.completed, dropped := c.dropped, evicted := c.evicted }
+
+def SaseSt.view (s : SaseSt) : SaseSt :=
+  { s with runs := s.runs.map Run.view, partitioned := s.partitioned.map fun kv => (kv.1, kv.2.map Run.view) }
+
+def SaseSt.Restorable (s : SaseSt) : Bool :=
+  s.runs.all Run.Restorable && s.partitioned.all fun kv => kv.2.all Run.Restorable
+
+/-! ## join.rs -/
+
+/-- one entry of `expiry_queue`: (expiry time, source, key) -/
+structure Expiry where
+  t : Int
+  source : String
+  key : String
+  deriving Repr, Inhabited, BEq, DecidableEq
+
+/-- the order of `BinaryHeap<Reverse<(DateTime, String, String)>>`: lexicographic -/
+def Expiry.le (a b : Expiry) : Bool :=
+  a.t < b.t || (a.t == b.t && (a.source < b.source || (a.source == b.source && a.key ≤ b.key)))
+
+/-- `BinaryHeap::push` on the heap represented by its sorted listing (what `pop` would yield) -/
+def heapPush (x : Expiry) : List Expiry → List Expiry
+  | [] => [x]
+  | y :: r => if x.le y then x :: y :: r else y :: heapPush x r
+
+def heapOfList (l : List Expiry) : List Expiry := l.foldr heapPush []
+
+def HeapSorted : List Expiry → Prop
+  | [] => True
+  | [_] => True
+  | a :: b :: r => a.le b = true ∧ HeapSorted (b :: r)
+
+/-- `JoinBuffer` (sources, join keys, window, per-key cap and GC interval are configuration) -/
+structure JoinSt where
+  buffers : List (String × List (String × List (Int × Event)))
+  queue : List Expiry
+  lastGc : Option Int
+  deriving Repr, Inhabited, BEq
+
+/-- configuration of a join, as `JoinBuffer::checkpoint` copies it into the checkpoint -/
+structure JoinCfg where
+  sources : List String
+  joinKeys : List (String × String)
+  windowMs : Int
+  deriving Repr, Inhabited
+
+/-- `JoinBuffer::checkpoint` -/
+def JoinSt.ckpt (c : JoinCfg) (j : JoinSt) : JoinCkpt :=
+  { buffers := j.buffers.map fun sb => (sb.1, sb.2.map fun kb => (kb.1, kb.2.map fun p => (msOf p.1, serOfEvent p.2))),
+    sources := c.sources, joinKeys := c.joinKeys, windowMs := c.windowMs,
+    lastGcMs := j.lastGc.map msOf, lastGcSub := (j.lastGc.map subOf).getD 0,
+    expiryQueue := some (j.queue.map fun x => { ms := msOf x.t, sub := subOf x.t, source := x.source, key := x.key }) }
+
+/-- `JoinBuffer::restore`: the pair's timestamp is taken from the restored event; the queue is
+pushed entry by entry (or rebuilt from the events for a checkpoint without queue, `windowNs` =
+`self.window_duration`) -/
+def JoinSt.restore (windowNs : Int) (c : JoinCkpt) : JoinSt :=
+  let buffers := c.buffers.map fun sb => (sb.1, sb.2.map fun kb => (kb.1, kb.2.map fun p =>
+    ((eventOfSer p.2).ts, eventOfSer p.2)))
+  { buffers := buffers,
+    queue := match c.expiryQueue with
+      | some q => heapOfList (q.map fun x => { t := joinTs x.ms x.sub, source := x.source, key := x.key })
+      | none => heapOfList ((buffers.map fun sb => (sb.2.map fun kb => kb.2.map fun p =>
+          ({ t := p.1 + windowNs, source := sb.1, key := kb.1 } : Expiry)).flatten).flatten),
+    lastGc := c.lastGcMs.map fun ms => joinTs ms c.lastGcSub }
+
+/-- invariants of every reachable `JoinBuffer`: a buffered pair carries the event's own timestamp
+(`add_event` pushes `(event.timestamp, event)`), and the heap is a heap -/
+def JoinSt.WF (j : JoinSt) : Prop :=
+  (∀ sb ∈ j.buffers, ∀ kb ∈ sb.2, ∀ p ∈ kb.2, p.1 = p.2.ts) ∧ HeapSorted j.queue
+
+/-! ## distinct, limit, variables, watermarks (engine/mod.rs, watermark.rs) -/
+
+/-- `LruCache::insert` on the key listing, least recently used first -/
+def lruInsert (l : List String) (k : String) : List String := l.erase k ++ [k]
+
+/-- `create_checkpoint`, `RuntimeOp::Distinct` arm: `seen.iter().rev()` — most recent first -/
+def distinctCkpt (seen : List String) : List String := seen.reverse
+
+/-- `restore_checkpoint`: `seen.clear()`, then the keys are inserted from the back -/
+def distinctRestore (keys : List String) : List String := keys.reverse.foldl lruInsert []
+
+/-- `PerSourceWatermarkTracker` + the engine's `last_applied_watermark`
+(`max_out_of_orderness` in whole milliseconds: it comes from the program text) -/
+structure SrcWm where
+  watermark : Option Int
+  maxTs : Option Int
+  oooMs : Int
+  deriving Repr, Inhabited, BEq
+
+structure WmSt where
+  sources : List (String × SrcWm)
+  effective : Option Int
+  lastApplied : Option Int
+  deriving Repr, Inhabited, BEq
+
+def SrcWm.ckpt (s : SrcWm) : SrcWmCkpt :=
+  { watermarkMs := s.watermark.map msOf, watermarkSub := (s.watermark.map subOf).getD 0,
+    maxTimestampMs := s.maxTs.map msOf, maxTimestampSub := (s.maxTs.map subOf).getD 0, oooMs := s.oooMs }
+
+def SrcWm.ofCkpt (c : SrcWmCkpt) : SrcWm :=
+  { watermark := c.watermarkMs.map fun ms => joinTs ms c.watermarkSub,
+    maxTs := c.maxTimestampMs.map fun ms => joinTs ms c.maxTimestampSub, oooMs := c.oooMs }
+
+/-- `PerSourceWatermarkTracker::checkpoint`, completed by `create_checkpoint` -/
+def WmSt.ckpt (w : WmSt) : WmCkpt :=
+  { sources := w.sources.map fun kv => (kv.1, kv.2.ckpt),
+    effectiveMs := w.effective.map msOf, effectiveSub := (w.effective.map subOf).getD 0,
+    lastAppliedMs := w.lastApplied.map msOf, lastAppliedSub := (w.lastApplied.map subOf).getD 0 }
+
+/-- `PerSourceWatermarkTracker::restore` into the tracker of a freshly loaded engine (`fresh`: the
+sources the program registers, without any watermark yet) and `restore_checkpoint`'s
+`last_applied_watermark` -/
+def WmSt.restore (fresh : List (String × SrcWm)) (c : WmCkpt) : WmSt :=
+  { sources := c.sources.foldl (fun acc kv => upsert kv.1 (SrcWm.ofCkpt kv.2) acc) fresh,
+    effective := c.effectiveMs.map fun ms => joinTs ms c.effectiveSub,
+    lastApplied := match c.lastAppliedMs with
+      | some ms => some (joinTs ms c.lastAppliedSub)
+      | none => c.effectiveMs.map fun ms => joinTs ms c.effectiveSub }
+
+/-- `restore_checkpoint` before the repair: the applied watermark is taken to be the effective one -/
+def WmSt.restoreOld (fresh : List (String × SrcWm)) (c : WmCkpt) : WmSt :=
+  { WmSt.restore fresh c with lastApplied := c.effectiveMs.map fun ms => joinTs ms c.effectiveSub }
+
+/-- `advance_external_watermark`: is the new effective watermark applied to the windows? -/
+def WmSt.applies (w : WmSt) (newEffective : Int) : Bool :=
+  match w.lastApplied with
+  | none => true
+  | some l => decide (newEffective > l)
+
+/-! ## the engine -/
+
+/-- the stateful parts of one `StreamDefinition` -/
+structure StreamSt where
+  win : Option WinSt
+  sase : Option SaseSt
+  join : Option JoinSt
+  distinct : Option (List String)
+  limit : Option (Nat × Nat)
+  deriving Repr, Inhabited, BEq
+
+/-- the part of the program that `restore` reads from the freshly loaded engine -/
+structure StreamCfg where
+  join : JoinCfg
+  windowNs : Int
+  deriving Repr, Inhabited
+
+/-- `Engine` as far as `create_checkpoint`/`restore_checkpoint` touch it; `streams` listed by name -/
+structure EngineSt where
+  streams : List (String × StreamSt)
+  variables : List (String × Val)
+  processed : Nat
+  emitted : Nat
+  wm : Option WmSt
+  deriving Repr, Inhabited, BEq
+
+/-- `Engine::create_checkpoint` (`cfg n` = configuration of stream `n`) -/
+def EngineSt.ckpt (cfg : String → StreamCfg) (s : EngineSt) : EngineCkpt :=
+  { version := 1,
+    windowStates := s.streams.filterMap fun kv => kv.2.win.map fun w => (kv.1, w.ckpt),
+    saseStates := s.streams.filterMap fun kv => kv.2.sase.map fun x => (kv.1, x.ckpt),
+    joinStates := s.streams.filterMap fun kv => kv.2.join.map fun j => (kv.1, j.ckpt (cfg kv.1).join),
+    variables := s.variables.map fun kv => (kv.1, v2s kv.2),
+    eventsProcessed := s.processed, outputEventsEmitted := s.emitted,
+    watermarkState := s.wm.map WmSt.ckpt,
+    distinctStates := s.streams.filterMap fun kv => kv.2.distinct.map fun d => (kv.1, distinctCkpt d),
+    limitStates := s.streams.filterMap fun kv => kv.2.limit.map fun l => (kv.1, l) }
+
+/-- `restore_checkpoint` for one stream of the freshly loaded engine: every part that the
+checkpoint has an entry for (by stream name) is overwritten, the others stay fresh -/
+def StreamSt.restore (cfg : StreamCfg) (c : EngineCkpt) (name : String) (fresh : StreamSt) : StreamSt :=
+  { win := match fresh.win, c.windowStates.lookup name with
+      | some fw, some cp => some (fw.restore cp)
+      | fw, _ => fw,
+    sase := match fresh.sase, c.saseStates.lookup name with
+      | some _, some cp => some (SaseSt.restore cp)
+      | fs, _ => fs,
+    join := match fresh.join, c.joinStates.lookup name with
+      | some _, some cp => some (JoinSt.restore cfg.windowNs cp)
+      | fj, _ => fj,
+    distinct := match fresh.distinct, c.distinctStates.lookup name with
+      | some _, some keys => some (distinctRestore keys)
+      | fd, _ => fd,
+    limit := match fresh.limit, c.limitStates.lookup name with
+      | some _, some l => some l
+      | fl, _ => fl }
+
+/-- `Engine::restore_checkpoint` applied to a freshly loaded engine -/
+def EngineSt.restore (cfg : String → StreamCfg) (fresh : EngineSt) (c : EngineCkpt) : EngineSt :=
+  { streams := fresh.streams.map fun kv => (kv.1, StreamSt.restore (cfg kv.1) c kv.1 kv.2),
+    variables := c.variables.foldl (fun acc kv => upsert kv.1 (s2v kv.2) acc) fresh.variables,
+    processed := c.eventsProcessed, emitted := c.outputEventsEmitted,
+    wm := match c.watermarkState with
+      | some wc => some (WmSt.restore ((fresh.wm.map (·.sources)).getD []) wc)
+      | none => fresh.wm }
+
+end Varpulis.Ckpt
+
+namespace Varpulis.Ckpt
+
+/-! ## the freshly loaded engine, and what of an engine state is observable -/
+
+def SaseSt.empty : SaseSt :=
+  { runs := [], partitioned := [], watermark := none, maxTimestamp := none, created := 0, completed := 0,
+    dropped := 0, evicted := 0 }
+
+/-- the same stream definition after `Engine::load` of the same program -/
+def StreamSt.fresh (s : StreamSt) : StreamSt :=
+  { win := s.win.map WinSt.fresh, sase := s.sase.map fun _ => SaseSt.empty,
+    join := s.join.map fun _ => { buffers := [], queue := [], lastGc := none },
+    distinct := s.distinct.map fun _ => [], limit := s.limit.map fun l => (l.1, 0) }
+
+/-- the engine after `Engine::load` of the same program: `vars0` = the variables the program
+declares with their initial values, `src0` = the watermark sources it registers -/
+def EngineSt.fresh (s : EngineSt) (vars0 : List (String × Val)) (src0 : List (String × SrcWm)) : EngineSt :=
+  { streams := s.streams.map fun kv => (kv.1, kv.2.fresh), variables := vars0, processed := 0, emitted := 0,
+    wm := s.wm.map fun _ => { sources := src0, effective := none, lastApplied := none } }
+
+def StreamSt.view (s : StreamSt) : StreamSt := { s with sase := s.sase.map SaseSt.view }
+
+/-- two engine states that no operation can tell apart: equal stream states up to the unread
+Kleene aliases (`Run.view`), the same variable and watermark-source *maps* (hash maps: compared by
+lookup), equal counters -/
+structure EngineSt.Equiv (a b : EngineSt) : Prop where
+  streams : (a.streams.map fun kv => (kv.1, kv.2.view)) = (b.streams.map fun kv => (kv.1, kv.2.view))
+  variables : ∀ k, a.variables.lookup k = b.variables.lookup k
+  processed : a.processed = b.processed
+  emitted : a.emitted = b.emitted
+  wm : match a.wm, b.wm with
+    | some x, some y => (∀ k, x.sources.lookup k = y.sources.lookup k) ∧ x.effective = y.effective ∧ x.lastApplied = y.lastApplied
+    | none, none => True
+    | _, _ => False
+
+/-- what has to hold of an engine state for `restore ∘ checkpoint` to give it back: the structural
+invariants of the hash maps and buffers (they hold of every reachable state) and — the two
+unrepaired losses — no pending negation and no deferred Kleene predicate in any run -/
+structure EngineSt.Restorable (s : EngineSt) (vars0 : List (String × Val)) (src0 : List (String × SrcWm)) : Prop where
+  names : (s.streams.map (·.1)).Nodup
+  sase : ∀ kv ∈ s.streams, ∀ x, kv.2.sase = some x → x.Restorable = true
+  join : ∀ kv ∈ s.streams, ∀ j, kv.2.join = some j → j.WF
+  distinct : ∀ kv ∈ s.streams, ∀ d, kv.2.distinct = some d → d.Nodup
+  varNames : (s.variables.map (·.1)).Nodup
+  vars0 : ∀ k, s.variables.lookup k = none → vars0.lookup k = none
+  srcNames : ∀ w, s.wm = some w → (w.sources.map (·.1)).Nodup
+  src0 : ∀ w, s.wm = some w → ∀ k, w.sources.lookup k = none → src0.lookup k = none
+  /-- the engine records an applied watermark as soon as the tracker has an effective one -/
+  applied : ∀ w, s.wm = some w → w.lastApplied = none → w.effective = none
+
+end Varpulis.Ckpt
